@@ -28,7 +28,7 @@ VERIF = os.path.dirname(os.path.dirname(os.path.abspath(__file__)))
 REPO = os.environ.get("VERIF_REPO", "/repo")
 HARNESS_DIR = os.path.join(VERIF, "harness")
 MODELS_DIR = os.path.join(VERIF, "models")
-EVIDENCE_DIR = os.path.join(VERIF, "evidence")
+EVIDENCE_DIR = os.environ.get("VERIF_EVIDENCE_DIR", os.path.join(VERIF, "evidence"))
 REPLAY_DIR = os.path.join(VERIF, "replays")
 CACHE_DIR = os.path.join(VERIF, ".cache")
 SCRATCH_ROOT = os.environ.get("VERIF_SCRATCH", "/var/tmp")
@@ -166,7 +166,13 @@ def make_scratch(tag, mounts=None, models=True, extra_lib=None):
             raise RuntimeError("source file %s vanished from /repo" % rel)
         with open(sp, "a") as f:
             f.write('\n#[cfg(kani)]\n#[path = "%s"]\npub(crate) mod verif_kani;\n' % hp)
-    with open(os.path.join(src, "src", "lib.rs"), "a") as f:
+    libp = os.path.join(src, "src", "lib.rs")
+    with open(libp) as f:
+        libtxt = f.read()
+    with open(libp, "w") as f:
+        # (the HashMap stubs of the ProbOrdMinHash2 harnesses have to name std's allocator parameter)
+        f.write("#![cfg_attr(kani, feature(allocator_api))]\n" + libtxt)
+    with open(libp, "a") as f:
         f.write('\n#[cfg(kani)]\n#[path = "%s"]\npub(crate) mod verif_common;\n' % os.path.join(HARNESS_DIR, "common.rs"))
         if extra_lib:
             f.write(extra_lib)
@@ -676,6 +682,7 @@ def run_property(prop, spec, tier, seed, only=None, keep=False, jobs=None):
                     if not queue:
                         return
                     h = queue.pop(0)
+                wait_for_memory()
                 r = run_kani_harness(h, src, tdir, logdir)
                 log("%s %-44s %-9s %6.1fs vars=%s %s" % (prop, h.name, r["verdict"], r["wall_s"], r["sat_vars"], r["why"][:160]))
                 if r["verdict"] == "fail":
@@ -726,6 +733,26 @@ def run_property(prop, spec, tier, seed, only=None, keep=False, jobs=None):
             undecided.append((hh, {"verdict": "undecided", "why": "SMT lemma used by the environment model not proved: %s %s" % (lm["lemma"], lm["solvers"])}))
     return dict(results=results, violations=violations, known_hits=known_hits, undecided=undecided,
                 errors=errors, wall_s=time.time() - t0, harnesses=hs, lemmas=lemmas)
+
+
+def mem_available_gb():
+    try:
+        with open("/proc/meminfo") as f:
+            for l in f:
+                if l.startswith("MemAvailable:"):
+                    return int(l.split()[1]) / 1048576.0
+    except Exception:
+        pass
+    return 1e9
+
+
+def wait_for_memory(need_gb=10.0, max_wait=1800):
+    """admission control: the sandbox has no swap; do not start another CBMC while less than need_gb is free"""
+    t0 = time.time()
+    import random
+    time.sleep(random.random() * 2)
+    while mem_available_gb() < need_gb and time.time() - t0 < max_wait:
+        time.sleep(5)
 
 
 def ub_only(r):
